@@ -56,6 +56,15 @@ func EnumPDFFields(spec pdfw.DocSpec) []Fault {
 			for _, tf := range EnumPDFTokens(data) {
 				out = append(out, Fault{Layer: "pdfobj", Kind: "stream-text", A: int64(rc.num), B: tf.A<<20 | tf.B, S: tf.S})
 			}
+			// the data cut off at every token boundary (a torn stream whose /Length still matches)
+			prevWS := true
+			for k := 0; k < len(data); k++ {
+				ws := data[k] == ' ' || data[k] == '\n' || data[k] == '\r' || data[k] == '\t'
+				if (prevWS && !ws && k > 0) || (!prevWS && ws) {
+					out = append(out, Fault{Layer: "pdfobj", Kind: "stream-text", A: int64(rc.num), B: int64(k)<<20 | int64(len(data)-k), S: ""})
+				}
+				prevWS = ws
+			}
 		case "raw":
 			for v := 0; v < 5; v++ {
 				out = append(out, Fault{Layer: "pdfobj", Kind: "stream-body", A: int64(rc.num), B: int64(v)})
